@@ -1,5 +1,6 @@
 import AsyncVerif.Proofs.AggValues
 import AsyncVerif.Proofs.SetDict
+import AsyncVerif.Proofs.SelectValue
 /-!
 # C02 — aggregations return the standard-library result
 
@@ -440,7 +441,14 @@ theorem C02_spec_sorted (reverse : Bool) (ik : Val → Int) (items : List Val) :
   ⟨sorted_perm reverse ik items, sorted_pairwise reverse ik items, sorted_stable reverse ik items,
    fun c hc hs => sorted_sublist reverse ik items c hc hs⟩
 
-/-! ## nlargest / nsmallest -/
+/-! ## nlargest / nsmallest — the bounded heap itself is inside the model
+
+`Impl.nBest` is asyncstdlib's `_largest` as written: the first `n` items are collected with their stamps
+(`index * order_sign`), ordered, then every further item is let in only if its key is strictly better than the worst
+key in the heap (`worst_key < item_key`), replacing the worst entry and receiving the next stamp; `nsmallest` wraps the
+keys in `ReverseLT`.  `Std.nBest` is CPython's `heapq.nlargest` / `heapq.nsmallest` (general path; `nsmallest` uses a
+max-heap and stamps that count upwards).  The `heapq` binary heap is presented as the ordered list of its entries
+(trusted base); tuple comparison is Python's (`==` first, then `<`, which may raise `TypeError`). -/
 
 /-- `nlargest(0, …)` / `nsmallest(0, …)`: the empty list, and the world is left exactly as it was by
     the CPython algorithm — nothing is pulled, no callable runs; asyncstdlib's version likewise
@@ -451,26 +459,45 @@ theorem C02_nbest_zero (largest : Bool) (fn : Option Nat) (s fuel : Nat) (w : Wo
     (Impl.nBest largest 0 fn s fuel w).2.vis = w.vis ∧
     (∀ s', ((Impl.nBest largest 0 fn s fuel w).2.srcs s').script = (w.srcs s').script) ∧
     (Impl.nBest largest 0 fn s fuel w).2.calls = w.calls := by
-  have h0 := nBest_zero largest fn s fuel w
+  have h0 : Std.nBest largest 0 fn s fuel w = (.ok (.lst []), w) := nBestAlgo_zero _ fn s fuel w
   obtain ⟨h1, h2, h3, h4⟩ := scopedIter_value s (Std.nBest largest 0 fn s fuel) w
-  unfold Impl.nBest
+  rw [Impl.nBest_eq]
   refine ⟨h0, ?_, ?_, ?_, ?_⟩
   · rw [h1, h0]
   · rw [h2, h0]
   · intro s'; rw [h3 s', h0]
   · rw [h4, h0]
 
+/-- **the bounded heap selects `sorted(…)[:n]`** — pure form, every direction (`c.largest`), every stamp convention
+    (`c.pos`), every `n`, every list of `(key, item)` pairs with orderable keys: the algorithm returns the first `n`
+    items of the stable sort by key (descending for `nlargest`), so equal keys come out in arrival order and the
+    earliest of them are the ones kept; it raises nothing. -/
+theorem C02_bounded_heap_selects_sorted_prefix (c : Sel.Cfg) (n : Nat) (keyed : List (Val × Val))
+    (h : ∀ p ∈ keyed, p.1.orderable = true) :
+    Sel.selectV c n keyed = .ok ((Sel.spec c.largest n (keyed.map Sel.ikp)).map (·.2)) :=
+  Sel.selectV_orderable c n keyed h
+
+/-- **the stamp convention is irrelevant — every input, orderable or not**: asyncstdlib's `_largest` (stamps counting
+    downwards, `ReverseLT` keys for `nsmallest`) and CPython's `heapq.nsmallest` (stamps counting upwards on a max-heap)
+    are the same function of the `(key, item)` pairs: same result, or the same `TypeError` from the same comparison. -/
+theorem C02_nbest_same_function_as_heapq (largest : Bool) (n : Nat) (keyed : List (Val × Val)) :
+    Sel.selectV ⟨largest, false⟩ n keyed = Sel.selectV ⟨largest, !largest⟩ n keyed := by
+  rw [Sel.selectV_eq_selectKV, Sel.selectV_eq_selectKV]
+
 /-- CPython `heapq.nlargest(n, …)` (`largest = true`) / `nsmallest(n, …)` for `n > 0`, pure key,
     orderable keys: `(sorted …).take n` — the first `n` of the stable sort (descending for
-    `nlargest`), for every `n` including `n > len(items)` (then: the whole sorted list). -/
+    `nlargest`), for every `n` including `n > len(items)` (then: the whole sorted list); the whole input is consumed,
+    the key applied once per item as it arrives, and an input shorter than `n` is polled once more after it ended. -/
 theorem C02_nbest_std_value (largest : Bool) (n : Nat) (fn : Option Nat) (s fuel : Nat) (kf : Val → Val)
     (items : List Val) (w : World) (hn : n ≠ 0)
     (hf : Feeds w s items) (hk : KeyFn w fn kf) (hall : ∀ x ∈ items, (kf x).orderable = true)
     (hlt : items.length < fuel) :
     (Std.nBest largest n fn s fuel w).1 = .ok (.lst (ListSpec.nBest largest n (fun x => (kf x).ikey) items)) ∧
     ((Std.nBest largest n fn s fuel w).2.srcs s).script = [] ∧
-    (Std.nBest largest n fn s fuel w).2.vis = w.vis ++ keyedPullLog s fn kf items ++ endLog s :=
-  nBest_value largest n fn s kf items fuel w hn hf hk hall hlt
+    (Std.nBest largest n fn s fuel w).2.vis = w.vis ++ keyedPullLog s fn kf items ++ endLog s ++
+      (if 0 < items.length ∧ items.length < n then repollLog w s else []) := by
+  obtain ⟨h1, h2⟩ := nBestAlgo_value ⟨largest, !largest⟩ n fn s kf items fuel w hf hk hall hlt
+  exact ⟨h1, (h2 hn).1, (h2 hn).2⟩
 
 /-- asyncstdlib `nlargest` / `nsmallest` for **every** `n` (0, small, larger than the input):
     `(sorted …).take n`; for `n > 0` the whole input is consumed, the key applied once per item. -/
@@ -480,16 +507,43 @@ theorem C02_nbest_value (largest : Bool) (n : Nat) (fn : Option Nat) (s fuel : N
     (hlt : items.length < fuel) :
     (Impl.nBest largest n fn s fuel w).1 = .ok (.lst (ListSpec.nBest largest n (fun x => (kf x).ikey) items)) ∧
     (n ≠ 0 → ((Impl.nBest largest n fn s fuel w).2.srcs s).script = [] ∧
-      (Impl.nBest largest n fn s fuel w).2.vis = w.vis ++ keyedPullLog s fn kf items ++ endLog s) := by
+      (Impl.nBest largest n fn s fuel w).2.vis = w.vis ++ keyedPullLog s fn kf items ++ endLog s ++
+        (if 0 < items.length ∧ items.length < n then repollLog w s else [])) := by
   by_cases hn : n = 0
   · subst hn
     rw [(C02_nbest_zero largest fn s fuel w).2.1]
     simp [ListSpec.nBest]
   · obtain ⟨h1, h2, h3, -⟩ := scopedIter_lift s (Std.nBest largest n fn s fuel) w
-    unfold Impl.nBest
-    rw [h1, h2, h3]
-    have h := nBest_value largest n fn s kf items fuel w hn hf hk hall hlt
+    rw [Impl.nBest_eq, h1, h2, h3]
+    have h := C02_nbest_std_value largest n fn s fuel kf items w hn hf hk hall hlt
     exact ⟨h.1, fun _ => h.2⟩
+
+/-- **any keys** (orderable or not, e.g. `None`): in a fault-free world asyncstdlib's run ends exactly as the pure
+    selection on the `(key, item)` pairs ends — the same list, or the same `TypeError` — and that pure selection is the
+    one CPython's algorithm computes (`C02_nbest_same_function_as_heapq`).  In particular equal-but-unorderable keys
+    (`[None, None]`) are decided by their stamps without ever being compared with `<`. -/
+theorem C02_nbest_any_keys (largest : Bool) (n : Nat) (fn : Option Nat) (s fuel : Nat) (kf : Val → Val)
+    (items : List Val) (w : World) (hf : Feeds w s items) (hk : KeyFn w fn kf) (hlt : items.length < fuel) :
+    (Impl.nBest largest n fn s fuel w).1 =
+      (match Sel.selectV ⟨largest, false⟩ n (keyedOf kf items) with | .ok r => .ok (.lst r) | .error e => .error e) ∧
+    (Std.nBest largest n fn s fuel w).1 =
+      (match Sel.selectV ⟨largest, false⟩ n (keyedOf kf items) with | .ok r => .ok (.lst r) | .error e => .error e) := by
+  have hs := (nBestAlgo_run ⟨largest, !largest⟩ n fn s kf items fuel w hf hk hlt).1
+  rw [← C02_nbest_same_function_as_heapq] at hs
+  refine ⟨?_, hs⟩
+  obtain ⟨h1, -⟩ := scopedIter_lift s (Std.nBest largest n fn s fuel) w
+  rw [Impl.nBest_eq, h1]
+  exact hs
+
+/-! non-vacuity: ties are kept in arrival order and the earliest win; equal-but-unorderable keys are decided by their
+    stamps; an unorderable pair raises `TypeError`; both stamp conventions agree -/
+example : Sel.selectV ⟨true, false⟩ 2 [(.int 3, .obj 1 3), (.int 5, .obj 2 5), (.int 5, .obj 3 5), (.int 1, .obj 4 1), (.int 5, .obj 5 5)]
+    = .ok [.obj 2 5, .obj 3 5] := by rfl
+example : Sel.selectV ⟨false, true⟩ 2 [(.int 3, .obj 1 3), (.int 1, .obj 2 1), (.int 1, .obj 3 1), (.int 1, .obj 4 1)]
+    = .ok [.obj 2 1, .obj 3 1] := by rfl
+example : Sel.selectV ⟨false, false⟩ 2 [(.none, .none), (.none, .none)] = .ok [.none, .none] := by rfl
+example : Sel.selectV ⟨true, false⟩ 1 [(.none, .none), (.none, .none)] = .error .typeError := by rfl
+example : Sel.selectV ⟨true, false⟩ 2 [(.int 1, .int 1), (.none, .none)] = .error .typeError := by rfl
 
 /-- `n ≥ len(items)`: `nlargest`/`nsmallest` return the whole sorted list. -/
 theorem C02_spec_nbest_all (largest : Bool) (n : Nat) (ik : Val → Int) (items : List Val)
@@ -514,7 +568,7 @@ theorem C02_twin_every_world (s fuel : Nat) :
     (∀ largest n fn, Twin (Impl.nBest largest n fn s fuel) (Std.nBest largest n fn s fuel)) :=
   ⟨scopedIter_twin s _, scopedIter_twin s _, fun _ => scopedIter_twin s _, fun _ _ => scopedIter_twin s _,
    fun _ _ _ => scopedIter_twin s _, fun fn rev => impl_sorted_twin fn rev s fuel,
-   fun _ _ _ => scopedIter_twin s _⟩
+   fun largest n fn => by rw [Impl.nBest_eq]; exact scopedIter_twin s _⟩
 
 /-! ## The arguments are only consumed — every world -/
 
@@ -542,7 +596,7 @@ theorem C02_no_argument_mutation (s fuel : Nat) :
   · intro fn rev
     exact oc_bind (oc_scopedIter (Std.oc_collectKeyed fn s fuel []))
       (fun _ => oc_bind (oc_liftExc s _) (fun _ => oc_pure s _))
-  · intro largest n fn; exact oc_scopedIter (Std.oc_nBest largest n fn s fuel)
+  · intro largest n fn; rw [Impl.nBest_eq]; exact oc_scopedIter (Std.oc_nBest largest n fn s fuel)
 
 /-! ## The hypotheses are satisfiable: a concrete fault-free world -/
 
